@@ -10,7 +10,7 @@ import re
 from typing import Callable, Dict, FrozenSet, Iterable, Iterator, List, Optional, Sequence, Set, Tuple
 
 from . import guards as G
-from .repo import unparse, walk_no_nested, norm
+from .repo import dotted, unparse, walk_no_nested, norm
 
 FuncT = (ast.FunctionDef, ast.AsyncFunctionDef)
 CONTAINER_ADDERS = ("append", "extend", "add", "update", "insert", "setdefault", "appendleft")
@@ -739,6 +739,61 @@ class Provenance:
                 out.extend(IS(a) + IN(a))
             return out
         return [("other", expr)]
+
+    # ----- where do the elements of an iterable come from (through locals, comprehensions, sorted/list/reversed/enumerate/zip)
+    def iteration_bases(self, expr: ast.AST, _depth: int = 0) -> Tuple[Set[str], List[ast.AST]]:
+        """-> (texts of the underlying iterables, filter conditions met on the way: comprehension `if`s)"""
+        bases: Set[str] = set()
+        filters: List[ast.AST] = []
+        if _depth > 8:
+            return {norm(expr)}, filters
+        e = expr
+        if isinstance(e, ast.Name):
+            ds = [d for d in self.rd.defs(e) if d.kind in ("assign", "aug", "mut") and d.value is not None]
+            if not ds:
+                return {e.id}, filters
+            for d in ds:
+                if d.kind == "mut":
+                    # acc.append(x) inside a loop: the elements come from what that loop iterates
+                    v = d.value
+                    st = d.stmt
+                    p_ = getattr(st, "_parent", None)
+                    while p_ is not None and not isinstance(p_, (ast.For, FuncT)):
+                        if isinstance(p_, ast.If):
+                            filters.append(p_.test)
+                        p_ = getattr(p_, "_parent", None)
+                    if isinstance(p_, ast.For):
+                        b, f = self.iteration_bases(p_.iter, _depth + 1)
+                        bases |= b
+                        filters += f
+                    continue
+                b, f = self.iteration_bases(d.value, _depth + 1)
+                bases |= b
+                filters += f
+            return bases, filters
+        if isinstance(e, (ast.ListComp, ast.SetComp, ast.GeneratorExp, ast.DictComp)):
+            for g in e.generators:
+                filters += list(g.ifs)
+                b, f = self.iteration_bases(g.iter, _depth + 1)
+                bases |= b
+                filters += f
+            return bases, filters
+        if isinstance(e, ast.Call):
+            nm = dotted(e.func) or ""
+            if nm in ("sorted", "list", "tuple", "reversed", "enumerate", "iter", "set", "frozenset") and e.args:
+                return self.iteration_bases(e.args[0], _depth + 1)
+            if nm == "zip":
+                for a in e.args:
+                    b, f = self.iteration_bases(a, _depth + 1)
+                    bases |= b
+                    filters += f
+                return bases, filters
+            if nm == "filter" and len(e.args) == 2:
+                b, f = self.iteration_bases(e.args[1], _depth + 1)
+                return b, f + [e.args[0]]
+        if isinstance(e, (ast.List, ast.Tuple)) and not e.elts:
+            return set(), filters
+        return {norm(e)}, filters
 
     # ----- access-path roots: which parameter's object graph does `expr` point into (no flow through fresh containers)
     ELEMENT_METHODS = ("get", "items", "values", "keys", "pop", "setdefault", "popitem", "copy_shallow")
